@@ -42,13 +42,12 @@ theorem tie_stmt_parsed_from_bytes (b : Bytes) (src : Option Nat) :
     by_cases hc : (byteD b 0 >>> 6 != 2) = true
     · simp only [hc, if_true, rmap_ok, Option.map]
     · simp only [hc, Bool.false_eq_true, if_false]
-      by_cases hh : 3 + byteD b 2 > b.length
-      · simp only [hh, decide_true, if_true, subR_ok b.length 3 h', R.ok_bind, rmap_ok, Option.map]
-      · simp only [hh, decide_false, Bool.false_eq_true, if_false, crcEnd_eq (byteD b 1) (byteD_lt b 1), R.ok_bind]
-        have h3 := three_le_curExt (flagsOfByte (byteD b 1))
-        by_cases hce : curExt (flagsOfByte (byteD b 1)) > 3 + byteD b 2
-        · simp only [hce, decide_true, if_true, subR_ok _ 3 h3, R.ok_bind, rmap_ok, Option.map]
-        · simp only [hce, decide_false, Bool.false_eq_true, if_false, rmap_ok, Option.map]
+      -- both consistency tests, in whichever order the source makes them
+      have hcrc := crcEnd_eq (byteD b 1) (byteD_lt b 1)
+      have h3 := three_le_curExt (flagsOfByte (byteD b 1))
+      by_cases hh : 3 + byteD b 2 > b.length <;> by_cases hce : curExt (flagsOfByte (byteD b 1)) > 3 + byteD b 2 <;>
+        simp only [hh, hce, hcrc, decide_true, decide_false, if_true, if_false, Bool.false_eq_true,
+          subR_ok b.length 3 h', subR_ok _ 3 h3, R.ok_bind, rmap_ok, Option.map]
 
 /-- the model's vocabulary for `PesContents` -/
 def contentsOf (src : Option Nat) : Pes.Contents → PesContents
@@ -72,27 +71,24 @@ theorem tie_stmt_contents (b : Bytes) (src : Option Nat) :
       · simp only [Bool.false_eq_true, if_false, rmap_ok, contentsOf]
       · simp only [if_true, tie_stmt_parsed_from_bytes, bind_rmap, rmap_bind, R.pure_eq, rmap_ok, contentsOf]
 
-/-- the model never panics in `parsedFromBytes` on a buffer of at least two bytes beyond the check
-(it is total on every buffer): read off the translated function, which has no subtraction at all -/
+/-- the model never panics in `parsedFromBytes` (the two subtractions it evaluates for the `warn!`
+arguments cannot underflow) -/
 theorem parsed_from_bytes_total (b : Bytes) : ∃ o, Pes.parsedFromBytes b = .ok o := by
-  have h := tie_stmt_parsed_from_bytes b none
-  cases hm : Pes.parsedFromBytes b with
-  | ok o => exact ⟨o, rfl⟩
-  | panic m =>
-    exfalso
-    rw [hm] at h
-    -- the translated function performs only checked reads below the length it has just compared
-    unfold PesParsedContents.from_bytes at h
-    simp only [Slice.len, Slice.get, Pes.hdl, Pes.flagsByte] at h
-    by_cases h3 : b.length < 3
-    · simp [h3] at h
-    · have h' : 3 ≤ b.length := by omega
-      simp only [h3, decide_false, Bool.false_eq_true, if_false, byteAt_ok b 0 (by omega), byteAt_ok b 1 (by omega),
-        byteAt_ok b 2 (by omega), R.ok_bind, R.pure_eq, crcEnd_eq (byteD b 1) (byteD_lt b 1)] at h
-      split at h
-      · simp at h
-      · split at h
-        · simp at h
-        · split at h <;> simp at h
+  unfold Pes.parsedFromBytes
+  simp only [Pes.FIXED, Pes.hdl, Pes.flagsByte]
+  by_cases h3 : b.length < 3
+  · exact ⟨none, by simp only [h3, if_true, R.pure_eq]⟩
+  · have h' : 3 ≤ b.length := by omega
+    have hcrc := crcEnd_eq (byteD b 1) (byteD_lt b 1)
+    have hx := three_le_curExt (flagsOfByte (byteD b 1))
+    simp only [h3, if_false, byteAt_ok b 0 (by omega), byteAt_ok b 1 (by omega), byteAt_ok b 2 (by omega),
+      R.ok_bind, R.pure_eq, hcrc]
+    by_cases hc : (byteD b 0 >>> 6 != 2) = true
+    · exact ⟨none, by simp only [hc, if_true]⟩
+    · by_cases hh : 3 + byteD b 2 > b.length
+      · exact ⟨none, by simp only [hc, hh, Bool.false_eq_true, if_false, if_true, subR_ok b.length 3 h', R.ok_bind]⟩
+      · by_cases hce : curExt (flagsOfByte (byteD b 1)) > 3 + byteD b 2
+        · exact ⟨none, by simp only [hc, hh, hce, Bool.false_eq_true, if_false, if_true, subR_ok _ 3 hx, R.ok_bind]⟩
+        · exact ⟨some b, by simp only [hc, hh, hce, Bool.false_eq_true, if_false]⟩
 
 end Ts.Props.Ties.StmtPes
